@@ -8,7 +8,7 @@
    coordinates, which for a body (m, c, Ic) is m x (base position of c).
    CoM, momenta and energies are decided by the L3 oracle (sums over bodies of the definitions). *)
 From Coq Require Import List.
-From RV Require Import Scalar LinAlg3 Spatial Laws ListArr ModelDef JointDef KinDef UtilDef UtilThm BalDef BalThm C14Thm ComThm.
+From RV Require Import Scalar LinAlg3 Spatial Laws ListArr ModelDef JointDef KinDef UtilDef UtilThm BalDef BalThm C14Thm KinThm C04Thm KinThm3 ComThm ComThm2 ComThm3.
 Section P.
   Context {T : Type} (O : Ops T) {FL : FieldLaws O}.
   Theorem C12_zmp_on_contact_plane (normal point n0 f : V3 T) : v3dot O normal f <> o0 O ->
@@ -56,7 +56,26 @@ Section P.
     mom O X (rbi_from_mci O m c Ic) = v3scale O m (v3add O (str X) (m3Tv O (stE X) c)).
   Proof. exact (mom_of_mci O X m c Ic). Qed.
 End P.
+Section P2.
+  Context {T : Type} (O : Ops T) {FL : FieldLaws O} {TL : TrigLaws O}.
+  (* Whole-body spatial momentum and its rate, as accumulated by CalcCenterOfMass (flag cleared) after
+     UpdateKinematics from any well-formed workspace: every additive coordinate `pr` of the accumulated momentum is
+     the sum over the bodies of that coordinate of X_base_j^T (I_j v_j), resp. X_base_j^T (I_j a_j + v_j x* I_j v_j),
+     with X_base, v, a the recursions of C04 / C06 (the centre-of-mass velocity, acceleration, angular momentum and
+     its rate are fixed functions of these two vectors, the mass and the centre of mass). *)
+  Theorem C12_whole_body_momentum_and_rate (M : @Model T) q qd qdd (w0 : @WS T)
+    (pr : SV T -> T) : (forall a b, pr (svadd O a b) = oadd O (pr a) (pr b)) -> pr (svzero O) = o0 O ->
+    WF M ->
+    (forall i j, 0 < i < nbodies M -> 0 < j < nbodies M -> i <> j ->
+       is_custom (jkind (getJ M i)) = true -> is_custom (jkind (getJ M j)) = true -> jcust (getJ M i) <> jcust (getJ M j)) ->
+    (forall i, 0 < i < nbodies M -> joint_wf O M q i) -> Good O M w0 ->
+    let r := com_sweep O M (update_kinematics O M w0 q qd qdd) in
+    pr (snd (fst r)) = bsum O (fun j => pr (st_applyT O (XbF O M q j) (hF O M q qd j))) (nbodies M) /\
+    pr (snd r) = bsum O (fun j => pr (st_applyT O (XbF O M q j) (hdF O M q qd qdd j))) (nbodies M).
+  Proof. intros A Z W C J G. exact (whole_body_momentum O M q qd qdd W C J pr A Z w0 G). Qed.
+End P2.
 Print Assumptions C12_zmp_on_contact_plane. Print Assumptions C12_zmp_no_tangential_moment. Print Assumptions C12_zmp_unique.
 Print Assumptions C12_foot_placement_geometry. Print Assumptions C12_whole_body_inertia_term_is_parallel_axis.
 Print Assumptions C12_total_mass_is_sum_of_body_masses.
 Print Assumptions C12_center_of_mass_is_mass_weighted_mean. Print Assumptions C12_first_moment_of_a_body.
+Print Assumptions C12_whole_body_momentum_and_rate.
